@@ -14,4 +14,6 @@ Definition vlq_shift_checked : option bool := (Some true).
 Definition fid_add_checked : option bool := (Some true).
 Definition list_len_checked : option bool := (Some true).
 (* column/page_reader.rs: every `dest.copy_from_slice(src)` of an uncompressed page is guarded by a length test *)
-Definition page_copy_len_checked : option bool := (Some false).
+Definition page_copy_len_checked : option bool := (Some true).
+(* reader.rs: chunk range checked against the file size before prepare_for_chunk, and Ok(0) reads are errors *)
+Definition chunk_range_checked : option bool := (Some true).
